@@ -46,7 +46,12 @@ type connDriver struct {
 	gauge   map[string]*atomic.Int64
 	maxSeen map[string]int64
 	byIP    bool // sources are told apart by the connection's peer address (built-in client.ip extractor)
+	// header mode: the identifying header values are long and share a long prefix (bearer tokens of one issuer)
+	longNames bool
+	cancels   map[int]context.CancelFunc
 }
+
+const connLongPrefix = "Bearer eyJhbGciOiJSUzI1NiIsInR5cCI6IkpXVCIsImtpZCI6InByb2QtMjAyNi0wOSJ9.eyJpc3MiOiJodHRwczovL2lkLmV4YW1wbGUuY29tIiwiYXVkIjoiYXBpIn0."
 
 // connPeers: peer addresses as net/http reports them; every source name sN maps to a distinct host.
 var connPeers = []string{"10.0.0.1", "[fe80::1%eth0]", "10.0.0.2", "[fe80::2%eth0]", "[2001:db8::1]", "[fe80::3%wlan0]", "[::1]", "[2001:db8::2]", "192.168.1.10"}
@@ -75,9 +80,9 @@ type connDone struct {
 }
 
 func newConnDriver(limit int64) *connDriver {
-	d := &connDriver{entered: make(chan int, 64), done: make(chan connDone, 64), release: map[int]chan bool{}, gauge: map[string]*atomic.Int64{}, maxSeen: map[string]int64{}}
+	d := &connDriver{entered: make(chan int, 64), done: make(chan connDone, 64), release: map[int]chan bool{}, gauge: map[string]*atomic.Int64{}, maxSeen: map[string]int64{}, cancels: map[int]context.CancelFunc{}}
 	h := http.HandlerFunc(func(w http.ResponseWriter, req *http.Request) {
-		src := req.Header.Get("X-Src")
+		src := strings.TrimPrefix(req.Header.Get("X-Src"), connLongPrefix)
 		id := 0
 		for _, ch := range req.Header.Get("X-Id") {
 			id = id*10 + int(ch-'0')
@@ -115,6 +120,8 @@ func newConnDriver(limit int64) *connDriver {
 	if connExtractorSeq%5 == 4 {
 		variable = "client.ip"
 		d.byIP = true
+	} else if connExtractorSeq%3 == 1 {
+		d.longNames = true
 	}
 	ex, err := utils.NewExtractor(variable)
 	if err != nil {
@@ -138,9 +145,20 @@ func (d *connDriver) start(id int, src string) (admitted bool, status int) {
 		rec := httptest.NewRecorder()
 		req := httptest.NewRequest("GET", "http://x.test/", nil)
 		req.Header.Set("X-Src", src)
+		if d.longNames {
+			req.Header.Set("X-Src", connLongPrefix+src)
+		}
 		req.Header.Set("X-Id", sfmt("%d", id))
 		if d.byIP {
 			req.RemoteAddr = connPeer(src, id)
+		}
+		{
+			// every request has a cancellable context, as under a real server; the driver may cancel it mid-flight
+			ctx, cancel := context.WithCancel(req.Context())
+			req = req.WithContext(ctx)
+			d.mu.Lock()
+			d.cancels[id] = cancel
+			d.mu.Unlock()
 		}
 		if id%7 == 5 {
 			// the client has already gone away (or an outer timeout fired) when the request reaches the limiter: it is a
@@ -195,8 +213,14 @@ func genConnScript(r *rand.Rand, nsrc, n int) []connStep {
 		switch r.IntN(10) {
 		case 0, 1, 2, 3, 4, 5:
 			s = append(s, connStep{"start", src})
-		case 6, 7, 8:
+		case 6, 7:
 			s = append(s, connStep{"finish", src})
+		case 8:
+			if r.IntN(2) == 0 {
+				s = append(s, connStep{"finish", src})
+			} else {
+				s = append(s, connStep{"cancel", src}) // the client of an in-flight request goes away; the handler is still running
+			}
 		default:
 			s = append(s, connStep{"panic", src})
 		}
@@ -241,6 +265,22 @@ func runConnScript(c *Ctx, limit int64, script []connStep, tag string) (decision
 				if status != http.StatusTooManyRequests {
 					fail("controlled/reject-status", sfmt("step %d: rejection answered with status %d, want 429", si, status))
 					return nil, nil, false
+				}
+			}
+		case "cancel":
+			// the request keeps its slot for as long as its handler runs, whatever happened to its client
+			if l := inflight[st.Src]; len(l) > 0 {
+				d.mu.Lock()
+				cancel := d.cancels[l[(si*5)%len(l)]]
+				d.mu.Unlock()
+				if cancel != nil {
+					cancel()
+					// give context.AfterFunc style callbacks (they run in their own goroutine) every chance to run
+					for y := 0; y < 50; y++ {
+						runtime.Gosched()
+					}
+					time.Sleep(200 * time.Microsecond)
+					c.Count("in_flight_requests_cancelled", 1)
 				}
 			}
 		case "finish", "panic":
@@ -620,6 +660,9 @@ func c04SlowReject(c *Ctx) {
 			done := make(chan struct{})
 			req := httptest.NewRequest("GET", "http://x.test/", nil)
 			req.Header.Set("X-Src", src)
+			if d.longNames {
+				req.Header.Set("X-Src", connLongPrefix+src)
+			}
 			req.Header.Set("X-Id", sfmt("%d", id))
 			if d.byIP {
 				req.RemoteAddr = connPeer(src, id)
